@@ -187,3 +187,38 @@ def decimal_stream(ctx, n, oracle=None, sum_negative=False):
 
 def cc_key(c):
     return ('dec', tuple(c['shape']), tuple(c['vals']), c.get('den'), c.get('minv'), c.get('delta'), str(c.get('crit')), str(c['adj']))
+
+
+def reused_criteria_stream(ctx, n):
+    """The caller's list of criteria is the caller's: the same list object handed to two computes (the first with
+    stricter built-in parameters) gives, the second time, what a fresh list gives, and comes back unchanged."""
+    import numpy as np
+    from astrodendro import Dendrogram
+    rng = ctx.rng('reused-criteria')
+    for it in range(n):
+        c = gen.rand_case(rng, maxpix=30, allow_user=True)
+        if not c.get('crit'):
+            c['crit'] = [['peak', max([v for v in c['vals'] if v is not None] or [1]) - 1]]
+        c.pop('crit_single', None)
+        shape = tuple(c['shape'])
+        try:
+            arr = impl.case_array(dict(c, layout='C'))
+            kw = impl.compute_kwargs(c)
+            fs = list(kw.pop('is_independent'))
+            mine = list(fs)
+            strict = dict(kw, min_delta=float(np.nanmax(arr)) + 1.0 if np.isfinite(arr).any() else 1.0, min_npix=arr.size + 1)
+            Dendrogram.compute(arr.copy(), is_independent=mine, **strict)
+            d2 = Dendrogram.compute(arr.copy(), is_independent=mine, **kw)
+            ref = Dendrogram.compute(arr.copy(), is_independent=list(fs), **kw)
+            fails = []
+            if len(mine) != len(fs) or any(a is not b for a, b in zip(mine, fs)):
+                fails.append('the list of criteria handed to compute came back with %d entries instead of %d' % (len(mine), len(fs)))
+            h2, hr = impl.impl_hierarchy(d2, shape), impl.impl_hierarchy(ref, shape)
+            if h2 != hr:
+                fails.append('second compute with the same list object gives %s, a fresh list gives %s' % (h2, hr))
+        except Exception as e:
+            fails = ['raised %r' % (e,)]
+        ctx.count('reused_criteria_lists')
+        ctx.case_done(None, ('reused-criteria', it))
+        if fails:
+            ctx.oracle_failure({'stream': 'criteria list reused', 'case': {k: v for k, v in c.items() if k != 'adj_table'}}, fails)
